@@ -139,6 +139,7 @@ class Occ:
         self.prog = prog
         self.memo = {}
         self.evaluated = []  # (fn, site, state(s), verdict)
+        self.slot_events = set()  # (fn, block, 'A'|'M', pre-state, callee)
 
     # ---- event extraction -----------------------------------------------------------------------
     def counter_field(self, f):
@@ -267,6 +268,9 @@ class Occ:
                                 if s != BAL:
                                     flag(b, "call of %s (clones elements: user code)" % e[1], s)
                         elif e[0] == "ev":
+                            if e[1] in ("A", "M"):
+                                for s in post:
+                                    self.slot_events.add((short, b, e[1], s, mir.callee_short(t)))
                             post = {step(s, e[1]) for s in post}
                         elif e[0] == "callee":
                             npost = set()
